@@ -13,6 +13,7 @@ From Coq Require Import NArith ZArith List Bool.
 From LibaV Require Import C05.DListDefs C05.DListProofs C05.DListSpec C05.DListRunProofs C05.DListObsProofs.
 From LibaV Require Import C05.SListDefs C05.SListProofs C05.SListSpec C05.SListRunProofs.
 From LibaV Require Import C05.QueDefs C05.QueSpec C05.QueProofs C05.QueDropProofs C05.QueExamples.
+From LibaV Require Import C05.AccDefs C05.AccProofs.
 Import ListNotations.
 Local Open Scope N_scope.
 
@@ -202,3 +203,87 @@ Theorem que_swap_as_found_refuted :
                forall X', ~ QInv w' X'.
 Proof. exact swap_orig_refuted. Qed.
 Print Assumptions que_swap_as_found_refuted.
+
+(* ================================================================ accessors, alias entry points, iteration macros
+   (C05/AccDefs.v; the correspondence drivers evaluate them after every operation of every history) *)
+
+(* a_que_fore_ / a_que_back_ (no emptiness test) on a non-empty queue return the first / last element
+   of the abstract sequence, agree with the checked a_que_fore / a_que_back, and that pair is what the
+   drivers print as e=<fore_>/<back_> *)
+Theorem que_end_accessors :
+  forall (w : qworld) (X : list id * list id) (s : bool) (x : id) (t : list id),
+  QInv w X -> sel s X = x :: t ->
+  q_fore_ w s = Ok x /\ q_back_ w s = Ok (last t x) /\
+  q_fore w s = Ok x /\ q_back w s = Ok (last t x) /\
+  q_ends w s = Ok (Some x, Some (last t x)).
+Proof. exact ends_nonempty. Qed.
+Print Assumptions que_end_accessors.
+
+Theorem que_end_accessors_empty :
+  forall (w : qworld) (X : list id * list id) (s : bool),
+  QInv w X -> sel s X = [] ->
+  q_fore w s = Ok 0 /\ q_back w s = Ok 0 /\ q_ends w s = Ok (None, None).
+Proof. exact ends_empty. Qed.
+Print Assumptions que_end_accessors_empty.
+
+(* a_que_foreach / A_QUE_FOREACH visit exactly the abstract sequence, a_que_foreach_reverse /
+   A_QUE_FOREACH_REVERSE its reverse *)
+Theorem que_iteration :
+  forall (w : qworld) (X : list id * list id) (s : bool),
+  QInv w X -> q_each w s = Some (sel s X) /\ q_each_rev w s = Some (rev (sel s X)).
+Proof. exact que_each_spec. Qed.
+Print Assumptions que_iteration.
+
+(* hypotheses of the three theorems above met by a concrete state (three pushes on A), with the
+   values the drivers print for it *)
+Theorem que_accessors_example :
+  q_ends world3 false = Ok (Some 3, Some 5) /\ q_ends world3 true = Ok (None, None) /\
+  q_each world3 false = Some [3; 4; 5] /\ q_each_rev world3 false = Some [5; 4; 3].
+Proof. exact ends_world3. Qed.
+Print Assumptions que_accessors_example.
+
+(* a_list_ctor / a_list_dtor (same body as a_list_init): the node becomes a ring of its own, nothing
+   else changes *)
+Theorem list_alias_entry_points :
+  forall (h : dheap) (c : id), live h c ->
+  (exists h', l_ctor h c = Some h' /\ Ring h' [c] /\ Frame h h' [c] /\ (forall x, live h' x <-> live h x)) /\
+  (exists h', l_dtor h c = Some h' /\ Ring h' [c] /\ Frame h h' [c] /\ (forall x, live h' x <-> live h x)) /\
+  l_ctor h c = l_init h c /\ l_dtor h c = l_init h c.
+Proof. exact list_ctor_dtor_ring. Qed.
+Print Assumptions list_alias_entry_points.
+
+(* a_list_foreach_next / A_LIST_FOREACH_NEXT / a_list_forsafe_next / A_LIST_FORSAFE_NEXT from any
+   node c of a ring c :: xs visit xs, the four _prev macros visit rev xs *)
+Theorem list_iteration :
+  forall (h : dheap) (a : dabs) (c : id) (xs : list id) (fuel : nat),
+  DInv h a -> In (c :: xs) (fst a) -> (length xs < fuel)%nat ->
+  l_each_next h c fuel = Some xs /\ l_each_prev h c fuel = Some (rev xs).
+Proof. exact list_each_spec. Qed.
+Print Assumptions list_iteration.
+
+(* a_slist_init / a_slist_dtor (same body as a_slist_ctor): the list object becomes an empty list,
+   no other field changes *)
+Theorem slist_alias_entry_points :
+  forall (w : sworld) (L : id), s_rd w L <> None -> t_rd w L <> None ->
+  (exists w', s_init w L = Some w' /\ Slist w' L [] /\
+     (forall x, x <> L -> s_rd w' x = s_rd w x) /\ (forall l, l <> L -> t_rd w' l = t_rd w l)) /\
+  (exists w', s_dtor w L = Some w' /\ Slist w' L [] /\
+     (forall x, x <> L -> s_rd w' x = s_rd w x) /\ (forall l, l <> L -> t_rd w' l = t_rd w l)) /\
+  s_init w L = s_ctor w L /\ s_dtor w L = s_ctor w L.
+Proof. exact slist_init_dtor_spec. Qed.
+Print Assumptions slist_alias_entry_points.
+
+(* a_slist_link writes head->next and nothing else *)
+Theorem slist_link_writes_one_field :
+  forall (w : sworld) (a b : id), s_rd w a <> None ->
+  exists w', s_link w a b = Some w' /\ s_rd w' a = Some b /\
+    (forall x, x <> a -> s_rd w' x = s_rd w x) /\ (forall l, t_rd w' l = t_rd w l).
+Proof. exact slist_link_spec. Qed.
+Print Assumptions slist_link_writes_one_field.
+
+(* a_slist_foreach / A_SLIST_FOREACH / a_slist_forsafe / A_SLIST_FORSAFE visit the abstract sequence *)
+Theorem slist_iteration :
+  forall (w : sworld) (a : sabs) (L : id) (xs : list id) (fuel : nat),
+  SInv w a -> In (L, xs) (sa_lists a) -> (length xs < fuel)%nat -> s_each w L fuel = Some xs.
+Proof. exact slist_each_spec. Qed.
+Print Assumptions slist_iteration.
